@@ -31,7 +31,9 @@ VALS = [0, 1, -1, 5, 2 ** 31, -2 ** 31, 2 ** 63 - 1, -2 ** 63,
         -(2 ** 63 - 1), 2 ** 53 + 1, -(2 ** 53 + 1), 10 ** 18 + 1, -(10 ** 18 + 1), 2 ** 63 - 3]
 # spellings of the sequence name: (schema, name) as written
 NAMEFORMS = [(None, "q1"), ("s", "q1"), (None, '"Q1"'), ('"S"', '"Q1"'), ("s", '"Q1"'), ('"S"', "q1"), (None, "`q1`"), ("`s`", "`q1`"), (None, "[q1]"),
-             ("[s]", "[q1]"), ("S", "Q1"), ("s_1", "q_1")]
+             ("[s]", "[q1]"), ("S", "Q1"), ("s_1", "q_1"),
+             # names that begin with a statement-level word (only as a prefix)
+             ("settings", "dropped_rows_seq"), ("created", "set_seq"), (None, "alter_ids"), ("gone", "used_seq")]
 TAB_BEFORE = "CREATE TABLE tb (increment int, start int, cache int DEFAULT 3);"
 TAB_AFTER = "CREATE TABLE ta (cache int, minvalue int, maxvalue int, no int, noorder int);"
 SEQ2 = "CREATE SEQUENCE s.q2 START 7;"
@@ -73,6 +75,8 @@ def gen_cases(tier):
             for ni in range(2, len(NAMEFORMS)):
                 for nn in (False, True):
                     cases.append({"sel": s, "voff": 1, "kcase": "upper", "ctx": "alone", "name": ni, "nn": nn})
+                # the same statement with every token on its own line (the name then starts a line)
+                cases.append({"sel": s, "voff": 1, "kcase": "upper", "ctx": "alone", "name": ni, "nn": False, "lines": True})
     return cases
 
 
@@ -91,6 +95,8 @@ def build(case):
         exp[key] = v if kind == "int" else kind
     head = CASEF[case["kcase"]]("CREATE SEQUENCE")
     st = (head + " " + (schema + "." if schema else "") + qname + " " + " ".join(parts)).rstrip() + ";"
+    if case.get("lines"):
+        st = st.replace(" ", "\n")
     if case["ctx"] == "between":
         ddl = TAB_BEFORE + "\n" + st + "\n" + TAB_AFTER
     elif case["ctx"] == "then-alter":
